@@ -16,7 +16,12 @@ package collections
 // membership set (qin, qlen) and the items' Priority field; /verif/bounded/C14 checks those contracts on all operation
 // sequences up to a stated bound.
 
+// The map locks itself; an owner that declares `protects mu: field` for it (the rate limiter: look-up and store of a
+// source's entry are one critical section) must hold its own lock around these calls as well.
 //@ type TTLMap
+//@   extsync
+//@   mutators Set Get Increment GetInt Remove RemoveExpired RemoveLastUsed
+//@   readers Len
 //@   immutable capacity mutex OnExpire expiryTimes
 //@   guarded_by mutex: elements
 //@   protects mutex: expiryTimes
